@@ -1045,6 +1045,7 @@ def check_C10(h, rng, tier, only=("claim", "release", "open", "close"), pid="C10
         ans_c = answer_of(oc, c2, x.mtype)
         if any(a[0] == "error" and a[1] == "crowded" for a in ans_c):
             stats["skipped-known-finding"] += 1      # KF2
+            stats["kf:2"] += 1
             continue
         stats["resumed:%s@%d" % (x.mtype, min(k, 4))] += 1
         nontrivial += 1
